@@ -112,10 +112,43 @@ func attribute(run *ev.Run, prop string, cands []*Cand) {
 		os.Remove(in)
 		os.Remove(out)
 	}
+	// a candidate the counterfactual explains is the RECORDED finding only if the same input also fails on the
+	// engine as it was when the finding was recorded (known_findings.json reference_commit); one that passes
+	// there is a new violation of the same class
+	refVerdict := make([]string, len(cands))
+	for i := range refVerdict {
+		refVerdict[i] = "ref-unavailable"
+	}
+	if bin := os.Getenv("VERIF_REF_BIN"); bin != "" {
+		dir := os.Getenv("VERIF_SCRATCH")
+		if dir == "" {
+			dir = os.TempDir()
+		}
+		in := filepath.Join(dir, fmt.Sprintf("ref-in-%s-%d.json", prop, os.Getpid()))
+		out := in + ".out"
+		b, _ := json.Marshal(cands)
+		_ = os.WriteFile(in, b, 0o644)
+		cmd := exec.Command(bin, "-test.run", "^TestCFReplay$", "-test.timeout", "0")
+		cmd.Env = append(os.Environ(), "VERIF_CF_IN="+in, "VERIF_CF_OUT="+out, "VERIF_SHARD=", "GOMAXPROCS=1")
+		if o, err := cmd.CombinedOutput(); err != nil {
+			fmt.Printf("INFRA-ERROR reference replay failed: %v\n%s\n", err, tail(string(o), 3000))
+			os.Exit(2)
+		}
+		ob, err := os.ReadFile(out)
+		if err != nil || json.Unmarshal(ob, &refVerdict) != nil || len(refVerdict) != len(cands) {
+			fmt.Printf("INFRA-ERROR reference replay produced no verdicts\n")
+			os.Exit(2)
+		}
+		os.Remove(in)
+		os.Remove(out)
+	}
 	for i, c := range cands {
 		rep := c.replay()
 		rep["counterfactual_verdict"] = verdict[i]
-		if verdict[i] == "" {
+		rep["reference_tree_verdict"] = refVerdict[i]
+		if verdict[i] == "" && refVerdict[i] == "" {
+			run.Violation(c.Sig+":not-on-the-reference-tree", c.What+" [the same input satisfies the oracle on the engine of the reference commit: not the recorded finding]", rep)
+		} else if verdict[i] == "" {
 			run.Violation("KF-C01-1:holds-with-path-local-visited-sets", c.What, rep)
 		} else {
 			run.Violation(c.Sig, c.What+" [counterfactual: "+verdict[i]+"]", rep)
